@@ -1151,12 +1151,12 @@ class Grid:
             elif (pos == "center" and ax_to == "left") or (
                 pos == "right" and ax_to == "center"
             ):
-                data = data.isel(**{dim: slice(0, -1)})
+                data = data.isel({dim: slice(0, -1)})
                 ax_boundary_width = {ax.name: (1, 0)}
             elif (pos == "center" and ax_to == "inner") or (
                 pos == "outer" and ax_to == "center"
             ):
-                data = data.isel(**{dim: slice(0, -1)})
+                data = data.isel({dim: slice(0, -1)})
                 ax_boundary_width = {ax.name: (0, 0)}
             elif (pos == "center" and ax_to == "outer") or (
                 pos == "inner" and ax_to == "center"
